@@ -543,7 +543,8 @@ def rule_v3(ck, prog, S):
                         if C.const_of(atom.child(1)) == stb and ((atom["op"] == "!=") == pol):
                             okc = True
                 argp = a[1].strip_all_casts().get("path")
-                src_ok = False
+                # the register cleared is the .event field of a row of the group table: directly, or through a local copy
+                src_ok = bool(argp) and argp.startswith("scpi_reg_group_details[") and argp.endswith(".event")
                 for dn in f.nodes.values():
                     if dn.k == "DeclStmt":
                         for dd in dn.get("decls", []):
